@@ -142,6 +142,15 @@ func c17Run(c *runner.Ctx) {
 		if sub {
 			s2 = sch.Sub(r)
 		}
+		if c.Idx%5 == 3 && len(s2.Fields) > 0 {
+			// a field indexed with doc values in some inputs only (this check needs no specification model, so the
+			// configuration the model-based checks exclude is welcome here)
+			cp := &gen.Schema{IDP: s2.IDP, IDDV: s2.IDDV, Fields: append([]gen.FieldSpec(nil), s2.Fields...)}
+			k := r.Intn(len(cp.Fields))
+			cp.Fields[k].DV = !cp.Fields[k].DV
+			s2 = cp
+			c.Inc("inputs_with_flipped_docvalue_flag", 1)
+		}
 		n := smallSize(r)
 		if c.Idx%400 == 0 {
 			n = 400 + r.Intn(400)
